@@ -10,16 +10,17 @@
    - Exceptions are values (res).  Fuel recursion returns OutOfFuel, never a default.
    - Several builder objects live in a builder heap (list of heads lists) because merge returns
      either a new builder or one of its arguments (aliasing).
-   - Indices are naturals (negative indices are outside the model, see docs/C20.md).
+   - Branch / node indices are integers (Z): in-range negative indices follow Python indexing,
+     everything else is "out of bounds".
    - Operations are None | str | (name, params) like OperationType; params is a code: 0 stands for
      a falsy params value (None, {}), k > 0 for a non-empty dict.
    - copy.deepcopy is modelled by its meaning (fresh isomorphic sub-heap of everything reachable,
      every field kept incl. uid), not by its recursion.  LinkedGraph.sort_nodes (a reordering of
      the private node list that cannot change the set of root nodes) is not modelled. *)
-From Coq Require Import String List Arith Bool.
+From Coq Require Import String List Arith Bool ZArith.
 Import ListNotations.
 
-Definition ref := nat.
+Notation ref := nat (only parsing).
 
 Inductive exn := ValueError | IndexError | TypeError | OutOfFuel.
 Inductive res (A : Type) := Ok (a : A) | Raise (e : exn).
@@ -73,9 +74,28 @@ Definition usetitem (l : list nat) (i v : nat) : list nat := if mem v l then l e
 Definition set_parents (h : heap) (r : ref) (ps : list ref) : heap :=
   let nd := get h r in set_nth r (mkNode (n_name nd) (n_params nd) (n_uid nd) ps) h.
 
-(* OptNode(content, nodes_from): a new cell; uid = fresh (the address) *)
+(* uuid4(): the cell at address a is given uid 2a when it is created and uid 2a+1 if merge renews
+   its uid; every other uid is a copy made by deepcopy.  So generated uids never repeat. *)
+Definition fresh_uid (a : ref) : nat := 2 * a.
+Definition renewed_uid (a : ref) : nat := 2 * a + 1.
+
+(* OptNode(content, nodes_from): a new cell with a fresh uid *)
 Definition alloc (h : heap) (name : option string) (params : nat) (ps : list ref) : heap * ref :=
-  (h ++ [mkNode name params (length h) (uniq ps)], length h).
+  (h ++ [mkNode name params (fresh_uid (length h)) (uniq ps)], length h).
+
+Definition set_uid (h : heap) (r : ref) (u : nat) : heap :=
+  let nd := get h r in set_nth r (mkNode (n_name nd) (n_params nd) u (n_parents nd)) h.
+
+(* Python index: 0 <= i < n, or -n <= i < 0 counted from the end; None = out of bounds *)
+Definition norm_idx (n : nat) (i : Z) : option nat :=
+  if (0 <=? i)%Z then (if (i <? Z.of_nat n)%Z then Some (Z.to_nat i) else None)
+  else if (- Z.of_nat n <=? i)%Z then Some (Z.to_nat (Z.of_nat n + i)) else None.
+
+(* list.insert(i, x): negative positions count from the end, everything is clamped *)
+Definition insert_z {A} (i : Z) (x : A) (l : list A) : list A :=
+  let n := Z.of_nat (length l) in
+  let p := if (i <? 0)%Z then Z.max 0 (n + i) else Z.min i n in
+  insert_at (Z.to_nat p) x l.
 
 (* ---------------------------------------------------------------- LinkedGraph(nodes) *)
 (* LinkedGraph.add_node: if node not in _nodes: append; recurse into nodes_from *)
@@ -145,59 +165,62 @@ Definition truthy (o : operation) : bool :=
 (* one builder: heap and heads list *)
 Definition bstate := (heap * list ref)%type.
 
-Definition add_node_f (op : option string) (idx params : nat) (s : bstate) : bstate :=
+Definition add_node_f (op : option string) (idx : Z) (params : nat) (s : bstate) : bstate :=
   let '(h, hs) := s in
   match op with
   | None => s
   | Some nm =>
-      if idx <? length hs then
-        let '(h', r) := alloc h (Some nm) params [nth idx hs 0] in (h', set_nth idx r hs)
-      else
-        let '(h', r) := alloc h (Some nm) params [] in (h', hs ++ [r])
+      match norm_idx (length hs) idx with
+      | Some i => let '(h', r) := alloc h (Some nm) params [nth i hs 0] in (h', set_nth i r hs)
+      | None => let '(h', r) := alloc h (Some nm) params [] in (h', hs ++ [r])
+      end
   end.
 
-Definition add_op_f (o : operation) (idx : nat) (s : bstate) : bstate :=
+Definition add_op_f (o : operation) (idx : Z) (s : bstate) : bstate :=
   let '(nm, p) := unpack o in add_node_f nm idx p s.
 
-Definition add_sequence_f (ops : list operation) (idx : nat) (s : bstate) : bstate :=
+Definition add_sequence_f (ops : list operation) (idx : Z) (s : bstate) : bstate :=
   fold_left (fun s o => add_op_f o idx s) ops s.
 
 Fixpoint grow_from (i : nat) (ops : list operation) (s : bstate) : bstate :=
-  match ops with [] => s | o :: ops' => grow_from (S i) ops' (add_op_f o i s) end.
+  match ops with [] => s | o :: ops' => grow_from (S i) ops' (add_op_f o (Z.of_nat i) s) end.
 Definition grow_branches_f (ops : list operation) (s : bstate) : bstate := grow_from 0 ops s.
 
-Fixpoint add_branch_ins (ops : list operation) (input : ref) (pos : nat) (s : bstate) : bstate :=
+Fixpoint add_branch_ins (ops : list operation) (input : ref) (pos : Z) (s : bstate) : bstate :=
   match ops with
   | [] => s
   | o :: ops' =>
       let '(nm, p) := unpack o in
       let '(h, hs) := s in
       let '(h', r) := alloc h nm p [input] in
-      add_branch_ins ops' input (S pos) (h', insert_at pos r hs)
+      add_branch_ins ops' input (pos + 1)%Z (h', insert_z pos r hs)
   end.
-Definition add_branch_f (ops : list operation) (idx : nat) (s : bstate) : bstate :=
+Definition add_branch_f (ops : list operation) (idx : Z) (s : bstate) : bstate :=
   match filter truthy ops with
   | [] => s
   | ops' =>
       let '(h, hs) := s in
-      if idx <? length hs then add_branch_ins ops' (nth idx hs 0) idx (h, remove_at idx hs)
-      else fold_left (fun s o => add_op_f o (length (snd s)) s) ops' s
+      match norm_idx (length hs) idx with
+      | Some i => add_branch_ins ops' (nth i hs 0) idx (h, remove_at i hs)    (* heads.pop(idx) *)
+      | None => fold_left (fun s o => add_op_f o (Z.of_nat (length (snd s))) s) ops' s
+      end
   end.
 
 (* _get_node_from_branch_with_idx: OptGraph(head).nodes[idx], None when idx is not a position *)
-Definition node_from_branch (h : heap) (hs : list ref) (bidx nidx : nat) : res (option ref) :=
+Definition node_from_branch (h : heap) (hs : list ref) (bidx : nat) (nidx : Z) : res (option ref) :=
   match lg_nodes (fuel_of h) h [nth bidx hs 0] with
-  | Ok ns => Ok (if nidx <? length ns then Some (nth nidx ns 0) else None)
+  | Ok ns => Ok (match norm_idx (length ns) nidx with Some j => Some (nth j ns 0) | None => None end)
   | Raise e => Raise e
   end.
 
-Definition add_skip_f (b1 b2 n1 n2 : nat) (s : bstate) : res bstate :=
+Definition add_skip_f (b1 b2 n1 n2 : Z) (s : bstate) : res bstate :=
   let '(h, hs) := s in
-  if (length hs <=? b1) || (length hs <=? b2) then Ok s
-  else match node_from_branch h hs b1 n1 with
+  match norm_idx (length hs) b1, norm_idx (length hs) b2 with
+  | Some i1, Some i2 =>
+       match node_from_branch h hs i1 n1 with
        | Raise e => Raise e
        | Ok fo =>
-           match node_from_branch h hs b2 n2 with
+           match node_from_branch h hs i2 n2 with
            | Raise e => Raise e
            | Ok so =>
                match fo, so with
@@ -212,7 +235,9 @@ Definition add_skip_f (b1 b2 n1 n2 : nat) (s : bstate) : res bstate :=
                | _, _ => Ok s
                end
            end
-       end.
+       end
+  | _, _ => Ok s
+  end.
 
 Definition join_f (op : option string) (params : nat) (s : bstate) : bstate :=
   let '(h, hs) := s in
@@ -292,9 +317,13 @@ Definition merge_f (h : heap) (prev foll : list ref) : res (heap * merge_result)
         match deepcopy h1 foll with
         | Raise e => Raise e
         | Ok (h2, rhs) =>
-            match lg_nodes (fuel_of h2) h2 rhs with
-            | Raise e => Raise e
-            | Ok g =>
+            match lg_nodes (fuel_of h2) h2 rhs, lg_nodes (fuel_of h2) h2 lhs with
+            | Raise e, _ | _, Raise e => Raise e
+            | Ok g, Ok lg =>
+                (* lhs copies whose uid also occurs among the rhs copies get a fresh uid *)
+                let rhs_uids := map (fun r => n_uid (get h2 r)) g in
+                let h2 := fold_left (fun h x => if mem (n_uid (get h x)) rhs_uids
+                                                then set_uid h x (renewed_uid x) else h) lg h2 in
                 let initial := filter (fun r => is_nil (parents h2 r)) g in
                 let upd :=
                   if length lhs =? 1 then Some (merge_updates h2 g initial [nth 0 lhs 0])
@@ -314,11 +343,11 @@ Definition merge_f (h : heap) (prev foll : list ref) : res (heap * merge_result)
 Record state := mkState { s_heap : heap; s_bs : list (list ref) }.
 
 Inductive call :=
-| AddNode (b : nat) (op : option string) (idx params : nat)
-| AddSequence (b : nat) (ops : list operation) (idx : nat)
+| AddNode (b : nat) (op : option string) (idx : Z) (params : nat)
+| AddSequence (b : nat) (ops : list operation) (idx : Z)
 | GrowBranches (b : nat) (ops : list operation)
-| AddBranch (b : nat) (ops : list operation) (idx : nat)
-| AddSkip (b b1 b2 n1 n2 : nat)
+| AddBranch (b : nat) (ops : list operation) (idx : Z)
+| AddSkip (b : nat) (b1 b2 n1 n2 : Z)
 | JoinBranches (b : nat) (op : option string) (params : nat)
 | Reset (b : nat)
 | ToNodes (b : nat)
